@@ -33,6 +33,9 @@ class K(V):
         self.v = v
 
     def __repr__(self) -> str:
+        if isinstance(self.v, frozenset):
+            # canonical text: the iteration order of a set is not a property of its value
+            return "K(frozenset({" + ", ".join(sorted(repr(x) for x in self.v)) + "}))"
         return f"K({self.v!r})"
 
     def __eq__(self, o: object) -> bool:
